@@ -219,6 +219,8 @@ pub fn strategy(flow_focus: bool, max: usize, max_streams: usize) -> impl Strate
             if let Some((count, len)) = many {
                 backend.max_concurrent = None;
                 client.max_concurrent = None;
+                // 3-byte responses: the default window is plenty, no per-stream WINDOW_UPDATE is ever needed
+                client.initial_window = client.initial_window.max(65535);
                 streams = (0..count).map(|_| StreamSpec { req_len: len, resp_len: 3, req_frames: vec![16384], req_pad: None, resp_frames: vec![], resp_pad: None }).collect();
             }
             let make_generous = |p: &mut PeerSpec, biggest: usize| {
